@@ -876,21 +876,47 @@ def emit_tables():
 
 
 def main():
+    """Each generated file is produced independently, so that a source file the translator cannot read
+    breaks only the properties whose theorems are stated against that file. Status per part is written
+    to .cache/translate_status.json; exit code 1 if any part failed."""
+    import json
     os.makedirs(OUT, exist_ok=True)
-    try:
-        order, consts, values = parse_constants()
-        c = emit_constants(order, consts, values)
-        cfg = parse_config(values)
-        g = emit_config(cfg, values)
-        t = emit_tables()
-    except Unreadable as e:
-        print(f"translator cannot read {e}")
-        sys.exit(1)
-    for name, text in (("Constants.lean", c), ("Config.lean", g), ("Tables.lean", t)):
+    status = {}
+    values = None
+
+    def write(name, text):
         path = os.path.join(OUT, name)
         old = open(path).read() if os.path.exists(path) else None
         if old != text:
             open(path, "w").write(text)
+
+    try:
+        order, consts, values = parse_constants()
+        write("Constants.lean", emit_constants(order, consts, values))
+        status["constants"] = "ok"
+    except Unreadable as e:
+        status["constants"] = f"translator cannot read {e}"
+    if values is not None:
+        try:
+            cfg = parse_config(values)
+            write("Config.lean", emit_config(cfg, values))
+            status["config"] = "ok"
+        except Unreadable as e:
+            status["config"] = f"translator cannot read {e}"
+    else:
+        status["config"] = "translator cannot read config.rs: constants unavailable"
+    try:
+        write("Tables.lean", emit_tables())
+        status["tables"] = "ok"
+    except Unreadable as e:
+        status["tables"] = f"translator cannot read {e}"
+    os.makedirs(os.path.join(ROOT, ".cache"), exist_ok=True)
+    json.dump(status, open(os.path.join(ROOT, ".cache", "translate_status.json"), "w"), indent=1)
+    bad = [v for v in status.values() if v != "ok"]
+    for b in bad:
+        print(b)
+    if bad:
+        sys.exit(1)
     print("translator ok")
 
 
